@@ -2,6 +2,8 @@ package sim
 
 import (
 	"bytes"
+	"os"
+	"os/exec"
 	"encoding/json"
 	"fmt"
 	"hash/fnv"
@@ -74,10 +76,53 @@ func classKey(clause, key string) string {
 
 var bracketRe = regexp.MustCompile(`\[[^\]]*\]`)
 
+// c02Layout is the scenario generator of this engine (shared with the fresh-process child).
+func c02Layout(r *zsimrt.Run) *Layout {
+	L := GenLayout(r)
+	if r.Chance("c02-remote", 1, 3) {
+		addRemote(&G{R: r, feat: map[string]bool{}, L: L}, L)
+	}
+	return L
+}
+
+func soloDigest(o *Outcome) string {
+	return fmt.Sprintf("%s %x %x", o.Kind(), fnvHash(o.YAML), fnvHash(o.JSON))
+}
+
+// TestSolo support: the same scenario loaded once in a process that has done nothing else.
+func c02Solo(seed uint64, idx int) string {
+	r := zsimrt.NewRun(zsimrt.Mix(seed, "c02", uint64(idx)))
+	zsimrt.Activate(r)
+	L := c02Layout(r)
+	r.ResetPolicies()
+	r.SetPolicy(zsimrt.OrdSorted)
+	return soloDigest(RunLoad(L, Materialise(L), "", true))
+}
+
 func c02Run(c *Ctx, r *zsimrt.Run) {
 	c02Canaries(c, false)
-	L := GenLayout(r)
-	c02Scenario(c, r, L, nil)
+	L := c02Layout(r)
+	_, ref := c02Scenario(c, r, L, nil)
+	if ref != nil && (c.Index%16 == 0 || len(L.Remote) > 0) && c.Replay == nil {
+		// the symmetric half of the history clause: what this process (with everything it has loaded so
+		// far) computed must be what a fresh process computes for the same input
+		cmd := exec.Command(os.Args[0], "-test.run", "^TestSolo$")
+		cmd.Env = append(os.Environ(), fmt.Sprintf("VERIF_SOLO_INDEX=%d", c.Index), fmt.Sprintf("VERIF_SOLO_SEED=%d", c.Res.Seed), "VERIF_ENGINE=")
+		b, err := cmd.Output()
+		got := ""
+		for _, line := range strings.Split(string(b), "\n") {
+			if strings.HasPrefix(line, "SOLO ") {
+				got = strings.TrimPrefix(line, "SOLO ")
+			}
+		}
+		c.Count("fresh-process-comparisons", 1)
+		if err == nil && got != "" && got != soloDigest(ref) {
+			sc, _ := json.Marshal(map[string]any{"kind": "fresh-process", "layout": L, "in_process": soloDigest(ref), "fresh_process": got, "runs_before_in_this_process": c.Res.Runs,
+				"first_index": c.Res.From, "index": c.Index, "verif_seed": c.Res.Seed})
+			c.Violate(Violation{Property: "C02", Clause: "depends-on-earlier-loads", Key: "depends-on-earlier-loads/fresh-process-differs:" + strings.SplitN(soloDigest(ref), " ", 2)[0] + " vs " + strings.SplitN(got, " ", 2)[0], Engine: "c02", Scenario: sc,
+				Detail: fmt.Sprintf("run %d: after %d earlier runs in this process the load gives [%s]; the same input in a fresh process gives [%s]", c.Index, c.Res.Runs, soloDigest(ref), got)})
+		}
+	}
 	canarySince = append(canarySince, c.Index)
 	if len(canarySince) >= 40 {
 		c02Canaries(c, true)
@@ -101,6 +146,8 @@ var (
 )
 
 func canaryLayouts(seed uint64) []*Layout {
+	genDirTag = "-canary"
+	defer func() { genDirTag = "" }()
 	var out []*Layout
 	for k := 0; k < 10; k++ {
 		r := zsimrt.NewRun(zsimrt.Mix(seed, "c02-canary", uint64(k)))
@@ -174,7 +221,7 @@ func c02HistoryMinimise(c *Ctx, k int, since []int) []int { return since }
 
 // c02Scenario loads L under several order schedules and histories and compares.
 // When pinned != nil it is the set of per-load site policies to use (replay/minimisation).
-func c02Scenario(c *Ctx, r *zsimrt.Run, L *Layout, pinned []map[string]int) *Violation {
+func c02Scenario(c *Ctx, r *zsimrt.Run, L *Layout, pinned []map[string]int) (*Violation, *Outcome) {
 	type sched struct {
 		label string
 		pol   int
@@ -223,7 +270,7 @@ func c02Scenario(c *Ctx, r *zsimrt.Run, L *Layout, pinned []map[string]int) *Vio
 				Detail: fmt.Sprintf("load %q disagrees with the canonical-order load of the same input: %s", s.label, key)}
 			c02Minimise(c, r, L, i, loads, &v)
 			c.Violate(v)
-			return &v
+			return &v, ref
 		}
 	}
 	nonCanon := 0
@@ -242,7 +289,7 @@ func c02Scenario(c *Ctx, r *zsimrt.Run, L *Layout, pinned []map[string]int) *Vio
 	if ref.OK {
 		c.Sample(map[string]any{"main": L.Main, "features": L.Features, "files": len(L.Files), "loads": loads[1:3], "yaml_bytes": len(ref.YAML)})
 	}
-	return nil
+	return nil, ref
 }
 
 // c02Minimise isolates the order-dependent sites: starting from the failing
@@ -321,7 +368,7 @@ func c02ReplayHistory(c *Ctx, v *Violation) bool {
 	for _, idx := range sc.History {
 		r := zsimrt.NewRun(zsimrt.Mix(sc.Seed, "c02", uint64(idx)))
 		zsimrt.Activate(r)
-		c02Scenario(&Ctx{Res: &Result{Counters: map[string]int{}, Max: map[string]int{}}, nt: map[string]bool{}, Index: idx}, r, GenLayout(r), nil)
+		c02Scenario(&Ctx{Res: &Result{Counters: map[string]int{}, Max: map[string]int{}}, nt: map[string]bool{}, Index: idx}, r, c02Layout(r), nil)
 	}
 	canaries = saved
 	out := canaryLoad(L)
@@ -331,8 +378,37 @@ func c02ReplayHistory(c *Ctx, v *Violation) bool {
 	return true
 }
 
+// c02ReplayFresh re-executes the worker's runs up to the recorded one, then compares with a fresh process again.
+func c02ReplayFresh(c *Ctx, v *Violation) bool {
+	var sc struct {
+		Kind  string `json:"kind"`
+		First int    `json:"first_index"`
+		Index int    `json:"index"`
+		Seed  uint64 `json:"verif_seed"`
+	}
+	if err := json.Unmarshal(v.Scenario, &sc); err != nil || sc.Kind != "fresh-process" {
+		return false
+	}
+	canaries = []canary{}
+	c.Res.Seed, c.Res.From = sc.Seed, sc.First
+	c.Replay = nil
+	for idx := sc.First; idx <= sc.Index; idx++ {
+		r := zsimrt.NewRun(zsimrt.Mix(sc.Seed, "c02", uint64(idx)))
+		zsimrt.Activate(r)
+		c.Index, c.Seed = idx, r.Seed
+		if idx < sc.Index {
+			c.Replay = v // no fresh-process comparison for the history runs
+		} else {
+			c.Replay = nil
+		}
+		c02Run(c, r)
+		c.Res.Runs++
+	}
+	return true
+}
+
 func c02Replay(c *Ctx, v *Violation) {
-	if c02ReplayHistory(c, v) {
+	if c02ReplayHistory(c, v) || c02ReplayFresh(c, v) {
 		return
 	}
 	var sc struct {
@@ -346,7 +422,7 @@ func c02Replay(c *Ctx, v *Violation) {
 	// (schedules, history) is identical; the stored layout must match.
 	r := zsimrt.NewRun(v.RunSeed)
 	zsimrt.Activate(r)
-	L := GenLayout(r)
+	L := c02Layout(r)
 	if layoutDigest(L) != layoutDigest(sc.Layout) {
 		c.Count("replay-layout-drift", 1)
 		L = sc.Layout
